@@ -5,10 +5,14 @@ add_* for Valid/Invalid/NoHeader x 4 families, fset/fget, quoting pair) with the
 webob.acceptparse on generated headers and operands; plus an oracle on the public API that states the property
 with an independent reference parser / formatter (see design_notes/C19.md).
 """
+import collections
 import copy
 import itertools
 import json
+import os
 import re
+import subprocess
+import sys
 import time
 
 from harness import fw
@@ -16,6 +20,7 @@ from harness.fw import Err, cstr, clist, cpair, copt
 from harness.props import c03
 
 FAMS = ["accept", "charset", "encoding", "language"]
+RECENT = collections.deque(maxlen=6000)   # the calls most recently made on the implementation in this process (as oracle cases)
 CLS = {"accept": "Accept", "charset": "AcceptCharset", "encoding": "AcceptEncoding", "language": "AcceptLanguage"}
 CREATE = {f: c03.FAMILIES[f][5] for f in FAMS}
 ATTR = {f: c03.FAMILIES[f][6] for f in FAMS}
@@ -440,6 +445,180 @@ def oracle_property_iadd(family, pre, op):
     return None
 
 
+# =========================================================================== histories: ONE long-lived object, many calls
+RO_ARGS = {"accept": ["text/html", "a/b", "application/json", "text/plain;p=1"], "charset": ["utf-8", "iso-8859-5", "utf-7"],
+           "encoding": ["gzip", "identity", "br"], "language": ["en", "en-gb", "de", "fr-CH"]}
+STEP_KINDS = ["str", "repr", "add", "radd", "iadd", "add_g", "g_add", "copy", "prop", "ro", "ro2"]
+
+
+def canon_result(family, r):
+    if isinstance(r, Err):
+        return ["raises", r.name]
+    if hasattr(r, "header_value") and hasattr(r, "parsed"):
+        return ["hdr"] + observe(family, r)
+    if isinstance(r, (list, tuple)):
+        return [canon_result(family, x) for x in r]
+    if isinstance(r, float):
+        return q1000(r)
+    if isinstance(r, (str, int, bool)) or r is None:
+        return r
+    return repr(r)
+
+
+def deep_mutate_parsed(obj):
+    """scribble over everything reachable from obj.parsed (the list itself and, for Accept, the parameter lists)"""
+    p = obj.parsed
+    if p is None:
+        return
+    for item in list(p):
+        for part in item:
+            if isinstance(part, list):
+                part.append(("zz", "scribble"))
+                part.reverse()
+    p.append(("zz/zz", 0.123, [], []) if p and len(p[0]) == 4 else ("zz", 0.123))
+    p.reverse()
+
+
+def history_step(family, kind, h, g, operand):
+    """one call on the objects h (and g); returns a canonical, comparable answer"""
+    import warnings
+    attr, key = ATTR[family], KEY[family]
+    try:
+        if kind == "str":
+            return str(h)
+        if kind == "repr":
+            return repr(h)
+        if kind == "add":
+            return canon_result(family, h + operand)
+        if kind == "radd":
+            return canon_result(family, operand + h)
+        if kind == "iadd":
+            x = h
+            x += operand
+            return [x is h, canon_result(family, x)]
+        if kind == "add_g":
+            return canon_result(family, h + g)
+        if kind == "g_add":
+            return canon_result(family, g + h)
+        if kind == "copy":
+            c = h.copy()
+            out = [c is h, canon_result(family, c), c.parsed is not None and c.parsed is h.parsed]
+            deep_mutate_parsed(c)
+            return out
+        if kind == "prop":
+            r1, r2 = blank_request(), blank_request({key: "x;;"})
+            setattr(r1, attr, h)
+            setattr(r2, attr, h)
+            setattr(r2, attr, getattr(r2, attr) + operand)
+            setattr(r1, attr, g)
+            return [r1.environ.get(key), r2.environ.get(key), canon_result(family, getattr(r1, attr)),
+                    canon_result(family, getattr(r2, attr))]
+        with warnings.catch_warnings():
+            warnings.simplefilter("ignore")
+            if kind == "ro":      # read-only API calls that walk self.parsed
+                out = [bool(h), canon_result(family, list(h.parsed) if h.parsed is not None else None)]
+                if family == "language":
+                    out.append(canon_result(family, h.basic_filtering(RO_ARGS[family])))
+                    out.append(canon_result(family, h.lookup(RO_ARGS[family], default="dflt")))
+                else:
+                    out.append(canon_result(family, h.acceptable_offers(RO_ARGS[family])))
+                return out
+            if kind == "ro2":     # the deprecated iteration / containment / quality API
+                out = [canon_result(family, list(h)) if h.parsed is not None else None]
+                out.append([x in h for x in RO_ARGS[family]])
+                out.append(canon_result(family, [h.quality(x) for x in RO_ARGS[family]]))
+                out.append(canon_result(family, h.best_match(RO_ARGS[family])))
+                return out
+    except Exception as e:  # noqa
+        return ["raises", type(e).__name__]
+    raise ValueError(kind)
+
+
+def oracle_history(family, hv, gv, steps):
+    """Two long-lived header objects h, g and long-lived Python operands serve a sequence of different calls.  After every
+    call: h, g and the operands are unchanged; the answer equals the answer of brand-new, identically built objects; the same
+    call made again gives the same answer."""
+    create = getattr(ap(), CREATE[family])
+    h, g = create(hv), create(gv)
+    base_h, base_g = observe(family, h), observe(family, g)
+    live_ops = {}
+    what = "%s: h=%r g=%r" % (family, hv, gv)
+    for i, st in enumerate(steps):
+        kind, op = st["do"], st.get("op")
+        what += " ; %s%s" % (kind, (" " + json.dumps(op)) if op is not None else "")
+        if op is None:
+            operand = fresh_operand = None
+        else:
+            k = json.dumps(op, sort_keys=True)
+            if k not in live_ops:
+                live_ops[k] = build_operand(family, op)
+            operand, fresh_operand = live_ops[k], build_operand(family, op)
+        want = history_step(family, kind, create(hv), create(gv), fresh_operand)
+        got = history_step(family, kind, h, g, operand)
+        if observe(family, h) != base_h or observe(family, g) != base_g:
+            who = "left/own object" if observe(family, h) != base_h else "other header object"
+            return ("history:state-changed:" + kind, "%s -- after step %d the %s changed: %r, was %r" %
+                    (what, i, who, observe(family, h) if who.startswith("left") else observe(family, g),
+                     base_h if who.startswith("left") else base_g))
+        if op is not None and snapshot(family, operand) != snapshot(family, fresh_operand):
+            return ("history:operand-modified:" + kind, "%s -- step %d modified its %s operand" % (what, i, op["t"]))
+        if got != want:
+            return ("history:differs-from-fresh:" + kind, "%s -- step %d on the long-lived objects answers %r, brand-new objects "
+                    "answer %r" % (what, i, got, want))
+        if kind in ("iadd",) and got[0]:
+            return ("add:iadd-in-place", "%s -- += returned the left operand itself" % what)
+        if kind == "copy" and (got[0] or got[2]):
+            return ("copy:shares-parsed", "%s -- copy() is the same object or shares its parsed list" % what)
+        again = history_step(family, kind, h, g, operand)
+        if again != got:
+            return ("history:not-repeatable:" + kind, "%s -- step %d repeated answers %r, first time %r" % (what, i, again, got))
+        if observe(family, h) != base_h or observe(family, g) != base_g:
+            return ("history:state-changed:" + kind, "%s -- repeating step %d changed a header object" % (what, i))
+    return None
+
+
+def oracle_order(family, calls, perm):
+    """module-level state: the same calls (each on brand-new objects) made in another order give the same answers"""
+    create = getattr(ap(), CREATE[family])
+
+    def one(c):
+        op = c.get("op")
+        return history_step(family, c["do"], create(c["h"]), create(c["g"]), None if op is None else build_operand(family, op))
+    first = [one(c) for c in calls]
+    second = {}
+    for j in perm:
+        second[j] = one(calls[j])
+    for j, r in enumerate(first):
+        if second[j] != r:
+            return ("order:answer-depends-on-call-order", "%s: call %d (%s on %r) answers %r when made in order and %r in the order %r"
+                    % (family, j, calls[j]["do"], calls[j]["h"], r, second[j], perm))
+    return None
+
+
+def r_history_value(family, rng):
+    x = rng.random()
+    if x < 0.75:
+        return c03.r_header(family, rng)
+    if x < 0.85:
+        return None
+    if x < 0.93:
+        return rng.choice(INVALID[family])
+    return rng.choice(EMPTYISH[family] or [c03.r_header(family, rng)])
+
+
+def r_history_steps(family, rng, n):
+    pool = [r_operand(family, rng, allow_hdr=False) for _ in range(3)]   # operands recur within one history
+    steps = []
+    for _ in range(n):
+        kind = rng.choice(STEP_KINDS)
+        st = {"do": kind}
+        if kind in ("add", "radd", "iadd", "prop"):
+            st["op"] = rng.choice(pool)
+        steps.append(st)
+    return steps
+
+
+
 # =========================================================================== generators
 QK = [1000, 0, 500, 250, 999, 1, 10, 100, 330, 1000, 0, 500]
 QK_BAD = [1500, 2000, 1001]
@@ -604,11 +783,13 @@ def c_opnd(family, op):
 
 # =========================================================================== implementation adaptors for the correspondence
 def impl_obs_value(family, value):
+    RECENT.append({"kind": "str", "family": family, "value": value})
     k, _, parsed, text = observe(family, getattr(ap(), CREATE[family])(value))
     return [k, parsed, text]
 
 
 def impl_add(family, left, right):
+    RECENT.append({"kind": "add", "family": family, "left": left, "right": right})
     res = do_add(family, left, right, "add")[0]
     if isinstance(res, Err):
         return res
@@ -617,6 +798,7 @@ def impl_add(family, left, right):
 
 
 def impl_prop(family, op):
+    RECENT.append({"kind": "property", "family": family, "op": op, "pre": "x;;"})
     req = blank_request({KEY[family]: "x;;"})
     setattr(req, ATTR[family], build_operand(family, op))
     back = getattr(req, ATTR[family])
@@ -659,13 +841,54 @@ def run_oracle(case):
         return oracle_property(f, case["op"], case.get("pre"))
     if k == "property_iadd":
         return oracle_property_iadd(f, case["pre"], case["op"])
+    if k == "history":
+        return oracle_history(f, case["h"], case["g"], case["steps"])
+    if k == "order":
+        return oracle_order(f, case["calls"], case["perm"])
+    if k == "sequence":
+        for c in case["cases"]:
+            r = run_oracle(c)
+            if r:
+                return r
+        return None
     raise ValueError(k)
 
 
+ISOLATED_KEYS = set()
+
+
+def isolated(case):
+    """evaluate one case in a brand-new interpreter (no module-level state left over from earlier cases)"""
+    code = ("import json, sys\nfrom harness.props import c19\n"
+            "r = c19.run_oracle(json.loads(sys.stdin.read()))\nprint('RESULT ' + json.dumps(r))")
+    p = subprocess.run([sys.executable, "-B", "-c", code], input=json.dumps(case), capture_output=True, text=True,
+                       cwd=fw.ROOT, env=dict(os.environ, PYTHONWARNINGS="ignore"))
+    m = re.search(r"^RESULT (.*)$", p.stdout, flags=re.M)
+    return json.loads(m.group(1)) if m else ["isolated-run-failed", (p.stderr or p.stdout)[-300:]]
+
+
 def check_case(ctx, case, source):
+    RECENT.append(case)
     r = run_oracle(case)
     if r:
-        ctx.fail(r[0], r[1], case, True, source)
+        what, rcase = r[1], case
+        if r[0] not in ISOLATED_KEYS and case.get("kind") != "sequence":
+            ISOLATED_KEYS.add(r[0])
+            if isolated(case) is None:
+                # passes on its own: the failure needs state left behind by earlier calls in the same process
+                recent = list(RECENT)
+                if not recent or recent[-1] is not case:
+                    recent.append(case)
+                for k in (30, 300, len(recent)):
+                    seq = {"kind": "sequence", "family": case.get("family"), "cases": recent[-k:]}
+                    if isolated(seq) is not None:
+                        rcase = seq
+                        what += ("  [only after the %d preceding calls of this process: state is shared between calls]"
+                                 % (len(seq["cases"]) - 1))
+                        break
+                else:
+                    what += "  [passes in a fresh process; depends on calls made earlier in this run]"
+        ctx.fail(r[0], what, rcase, True, source)
     return r
 
 
@@ -829,6 +1052,29 @@ def run(ctx):
                              "pre": rng.choice([None, "x;;"] + EMPTYISH[family] + [c03.r_header(family, rng)] * 3)},
                        "oracle-property-" + family)
         ctx.oracle_count("oracle-property-" + family, n, n)
+        # ---- histories: long-lived objects reused across different calls; call order
+        n = nt = 0
+        for _ in range(ctx.scale(800, 8000)):
+            steps = r_history_steps(family, rng, rng.randrange(4, 10))
+            case = {"kind": "history", "family": family, "h": r_history_value(family, rng), "g": r_history_value(family, rng),
+                    "steps": steps}
+            n += 1
+            nt += len(steps)
+            check_case(ctx, case, "oracle-history-" + family)
+        ctx.oracle_count("oracle-history-" + family, n, nt)
+        n = 0
+        for _ in range(ctx.scale(100, 1200)):
+            calls = []
+            for _k in range(rng.randrange(3, 7)):
+                st = r_history_steps(family, rng, 1)[0]
+                st.update({"h": r_history_value(family, rng), "g": r_history_value(family, rng)})
+                calls.append(st)
+            calls += [dict(c) for c in calls[:2]]          # the same call again later in the sequence
+            perm = list(range(len(calls)))
+            rng.shuffle(perm)
+            n += 1
+            check_case(ctx, {"kind": "order", "family": family, "calls": calls, "perm": perm}, "oracle-order-" + family)
+        ctx.oracle_count("oracle-order-" + family, n, n)
     ctx.extra["operand_histogram"] = hist
     ctx.extra["phase_wall_s"] = {"correspondence": round(t_corr - t_start, 1), "oracle": round(time.time() - t_corr, 1)}
     ctx.extra["rule"] = (
@@ -839,7 +1085,12 @@ def run(ctx):
         "pairs with a header object on at least one side, plus random pairs; property-* = the same operands assigned to "
         "request.accept*; distinct = distinct Coq input literals.  oracle: the statement evaluated on the public API with an "
         "independent reference parser / formatter: quote values exhaustive to length %d; str round trip; left/right/reflected and "
-        "+= additions; chains of 2-5 additions; property assignment, +=, del; non-trivial = quote values containing a character "
+        "+= additions; chains of 2-5 additions; property assignment, +=, del; histories of 4-9 different calls (str, repr, +, "
+        "reflected +, += on a second name, + / reflected + with a second long-lived header object, copy() followed by scribbling "
+        "over everything reachable from the copy's parsed list, assignment to two requests, read-only negotiation calls) on ONE "
+        "long-lived pair of header objects and long-lived list / dict operands, every answer compared with brand-new objects and "
+        "every object re-observed after every call; the same calls in two orders in one process; non-trivial = history steps, "
+        "quote values containing a character "
         "that needs quoting, headers whose str differs from their text, additions where both sides contribute elements"
         % (ctx.scale(3, 4), ctx.scale(4, 6)))
     ctx.assume += [
